@@ -8,26 +8,31 @@ From Coq Require Import String List Bool.
 From RV Require Export Lib.Hex Model.Resp Model.Conn Model.MiniExec Corr.Common.
 Import ListNotations.
 
-(* [tbl]: every distinct byte string of the scenario once (hex); steps and replies are indices *)
+(* [tbl]: every distinct byte string of the scenario once (hex); replies are indices into it; a step
+   is (1, i): client A sends tbl[i]; (0, i): client B sends tbl[i]; (2, ms): nobody sends anything
+   for ms milliseconds (keys with deadlines) *)
 Inductive case :=
-| KTx (tbl : list string) (steps : list (bool * N)) (replies : list N) (dead : bool).
+| KTx (tbl : list string) (steps : list (N * N)) (replies : list N) (dead : bool).
 
 Definition G : cfg := mk_cfg 60 2 1048576.
 
 (* connection [k] continues on the shared store [s], with an empty reply log *)
-Definition with_store (k : mconn) (s : list (bytes * mval)) : mconn :=
+Definition with_store (k : mconn) (s : mstate) : mconn :=
   mkConn _ _ (cbuf _ _ k) (mkCore _ _ s (txs _ _ (ccore _ _ k)) []) (cstat _ _ k).
 
-Fixpoint go (t : list bytes) (s : list (bytes * mval)) (ka kb : mconn) (steps : list (bool * N)) (replies : list N) : bool :=
+Fixpoint go (t : list bytes) (clock : N) (s : mstate) (ka kb : mconn) (steps : list (N * N)) (replies : list N) : bool :=
   match steps, replies with
   | [], [] => true
-  | (who, h) :: steps', r :: replies' =>
-    let k := with_store (if who then ka else kb) s in
-    let k' := mon_read G k (nth (N.to_nat h) t []) in
-    let s' := st _ _ (ccore _ _ k') in
-    bytes_eqb (wire (output _ _ k')) (nth (N.to_nat r) t [])
-    && match cstat _ _ k' with Open => true | _ => false end
-    && (if who then go t s' k' kb steps' replies' else go t s' ka k' steps' replies')
+  | (w, h) :: steps', r :: replies' =>
+    if (w =? 2)%N then go t (clock + h)%N s ka kb steps' replies'
+    else
+      let who := (w =? 1)%N in
+      let k := with_store (if who then ka else kb) (at_time s clock) in
+      let k' := mon_read G k (nth (N.to_nat h) t []) in
+      let s' := st _ _ (ccore _ _ k') in
+      bytes_eqb (wire (output _ _ k')) (nth (N.to_nat r) t [])
+      && match cstat _ _ k' with Open => true | _ => false end
+      && (if who then go t clock s' k' kb steps' replies' else go t clock s' ka k' steps' replies')
   | _, _ => false
   end.
 
@@ -35,7 +40,7 @@ Definition check (k : case) : bool :=
   match k with
   | KTx tbl steps replies dead =>
     if dead then false   (* the model never dies on whole well-formed commands; a dead implementation is a mismatch *)
-    else go (map unhex tbl) [] (conn_init _ _ []) (conn_init _ _ []) steps replies
+    else go (map unhex tbl) 0%N m0 (conn_init _ _ m0) (conn_init _ _ m0) steps replies
   end.
 
 Definition mismatches := mismatches_with check.
